@@ -15,7 +15,7 @@ P = {
 ASSUME = [
     'cgroups, pids and kernel behaviour (cgroup.kill, pids.current, process exit after SIGKILL) are simulated by the harness; signals never leave the process',
     'ranking keys are abstract in KillAction.tla: the driver renders each key into the statistic the configured plugin ranks by (what the plugins compute from statistics is C09)',
-    'cgroup files do not change within a tick except cgroup.procs (mid-tick changes are C10)',
+    'within a run cgroup files change only by processes exiting: cgroup.procs shrinks as pids die, and a cgroup may empty completely (KEmpty: cgroup.events / pids.current / cgroup.procs) right before one of the plugin\'s opens, never between the kernelkill\'s look at cgroup.events and its write of cgroup.kill; removal of a cgroup inside a run is C10',
     'stage S is exhaustive only within the constants of the .cfg files named in coverage.mc_configs',
 ]
 
@@ -38,7 +38,12 @@ def run(pid, tier, tmp, replay):
         try:
             r = vlib.tlc_mc('MC_KillAction.tla', 'MC_wit_kill.cfg', tmp, workers=1, timeout=600)
             m = re.search(r'"WITNESSES",\s*\{([^}]*)\}', r['out'])
-            wit_res.update(seen=set(re.findall(r'"(\w+)"', m.group(1))) if m else set(), states=r['distinct'])
+            seen = set(re.findall(r'"(\w+)"', m.group(1))) if m else set()
+            # a cgroup emptying in the middle of a run (MCEmpty): a small separate witness run
+            r2 = vlib.tlc_mc('MC_KillAction.tla', 'MC_wit_kill_mid.cfg', tmp, workers=1, timeout=300)
+            m2 = re.search(r'"WITNESSES",\s*\{([^}]*)\}', r2['out'])
+            seen |= set(re.findall(r'"(\w+)"', m2.group(1))) if m2 else set()
+            wit_res.update(seen=seen, states=r['distinct'] + r2['distinct'])
         except Exception as e:  # noqa
             errs.append(e)
 
@@ -66,7 +71,7 @@ def run(pid, tier, tmp, replay):
     if not mc_res['ok']:
         p = vlib.save_replay(pid, 'model_counterexample.txt', mc_res['out'].splitlines()[-200:])
         violations.append({'replay': p, 'why': 'stage S: the kill-path design violates %s' % mc_res['violated']})
-    missing = [w for w in cfg['wit'] if w not in wit_res.get('seen', set())]
+    missing = [w for w in cfg['wit'] + ['AttemptOnJustEmptied', 'KernelKillSeesEmptied'] if w not in wit_res.get('seen', set())]
     if missing:
         raise vlib.Infra('vacuity guard: witnesses never reached in MC_wit_kill.cfg: %s' % missing)
     for i, rej in enumerate(val['rejections']):
@@ -76,13 +81,17 @@ def run(pid, tier, tmp, replay):
         violations.append({'replay': p, 'why': 'stage B: %s event %d of the execution: %s (after %s)' % (
             why, rej['line_in_execution'], rej['first_unmatched'][:300], rej['last_matched'][:200])})
     lines = open(trace).read().splitlines()
+    n_empty = sum(1 for l in lines if l.startswith('{"e":"KEmpty"'))
+    if not replay and n_empty == 0:
+        raise vlib.Infra('vacuity guard: no cgroup emptied in the middle of a run in %d executions' % val['executions'])
     keep = [l for l in lines if re.match(r'\{"e":"(KRun|X|ProcsOpen|Kill|Reap|Kmsg|KRet|HookFire|HookPoll|CtlWrite)"', l)][:14]
     cov = {
         'states': mc_res['distinct'] + wit_res['states'] + val['states'],
         'transitions': mc_res['states'],
         'traces_validated_against_impl': val['accepted'],
         'samples': [{'events_of_one_execution': [json.loads(x) for x in keep]}],
-        'mc_configs': ['MC_%s_%s.cfg' % (pid, tier), 'MC_wit_kill.cfg', 'KillAction_Trace.cfg'],
+        'mc_configs': ['MC_%s_%s.cfg' % (pid, tier), 'MC_wit_kill.cfg', 'MC_wit_kill_mid.cfg', 'KillAction_Trace.cfg'],
+        'mid_run_emptied_events': n_empty,
         'mc_distinct_states': mc_res['distinct'],
         'mc_exhaustive_within_constants': bool(mc_res.get('completed')),
         'witnesses_reached': sorted(wit_res['seen']),
